@@ -4,7 +4,7 @@ Histories shared with C07 (harness/walletdrv.py).  After every call the live Wal
 observed; TLC derives balance, unspent outputs and per-key balances from the specification state and compares.  Stored
 transactions are reloaded at the end and compared with what was sent.
 """
-from harness import common, walletdrv
+from harness import common, walletdrv, walletsvc
 from harness.common import Check, tier
 
 PID = 'C08'
@@ -14,7 +14,9 @@ def run(replay=None):
     ck = Check(PID)
     thorough = tier() == 'thorough'
     ck.rule = ('trace = seeded history of one wallet (new_key/get_key, utxo_add, utxos_update with and without rescan, send_to/send/sweep '
-               'broadcast or not, transaction_delete, close+reopen); case = one event with the observations of the live and of a fresh '
+               'broadcast or not, explicit input lists, fee bumps and replacements, transaction_import, transaction_delete, close+reopen; a '
+               'second family learns everything through Wallet.transactions_update() from a scripted chain behind the real Service layer: '
+               'payments, spends made elsewhere with the same keys, own transactions mined, provider failures); case = one event with the observations of the live and of a fresh '
                'Wallet object; class = (wallet kind, event kind, number of unspent outputs (capped), balance zero or not)')
     ck.assumptions = ['network bitcoinlib_test (offline provider); utxos_update is fed explicit reports (utxos=...)',
                       'amounts below 2^27', 'single network per wallet; one or two accounts (HD wallets): every funding transaction, request and own recipient '
@@ -23,13 +25,19 @@ def run(replay=None):
     ck.model(common.model_check('MC_WalletLedger', 'MC_WalletLedger_thorough.cfg' if thorough else 'MC_WalletLedger.cfg', expect_actions=['Next']))
     if replay:
         jobs = [tuple(replay['case']['job'][:1]) + (tuple(replay['case']['job'][1]),) + tuple(replay['case']['job'][2:])]
-        traces = common.pmap(walletdrv.wallet_history, jobs)
+        svc = bool(replay['case'].get('service'))
+        traces = common.pmap(walletsvc.service_history if svc else walletdrv.wallet_history, jobs)
         verdicts = common.tlc_eval('WalletLedgerEval', [{'events': t['events']} for t in traces])
+        nsvc = len(jobs) if svc else 0
     else:
         jobs, traces, verdicts = walletdrv.collect(2400 if thorough else 240)
-    for job, t, v in zip(jobs, traces, verdicts):
+        # histories fed through the real service layer (transactions_update against a scripted chain)
+        j2, t2, v2 = walletsvc.collect(480 if thorough else 64)
+        nsvc = len(j2)
+        jobs, traces, verdicts = jobs + j2, traces + t2, verdicts + v2
+    for n, (job, t, v) in enumerate(zip(jobs, traces, verdicts)):
         ck.traces += 1
-        case = {'job': [job[0], list(job[1]), job[2]]}
+        case = {'job': [job[0], list(job[1]), job[2]], 'service': n >= len(jobs) - nsvc}
         if t['setup_error']:
             raise common.MachineryError('wallet setup failed: %s' % t['setup_error'])
         for e in t['events']:
